@@ -106,6 +106,7 @@ def run(ctx, chk, tier="quick"):
                     return (c_[1], c_[2][0][2], [s_.table for s_ in q_.sources])
         return None
 
+    bounds = []
     for pr in preds:
         if pr[0] == "bin" and pr[1] in (">=", ">", "<=", "<"):
             l, r, op = pr[2], pr[3], pr[1]
@@ -114,10 +115,17 @@ def run(ctx, chk, tier="quick"):
                 op = {"<": ">", ">": "<", "<=": ">=", ">=": "<="}[op]
             if extreme(r) is not None and l[0] == "col" and l[2] == "epoch":
                 fn, col, tabs = extreme(r)
+                bounds.append((op, fn, col, tabs))
                 if fn == "MIN":
                     lower = (op, col, tabs)
                 else:
                     upper = (op, col, tabs)
+    if len(bounds) == 2 and (lower is None or upper is None):
+        # two bounds against extremes of a column, but not one smallest and one largest: readable, and wrong
+        chk.ob("C10.O1", False, where_of(gt, gs.call), "grid bounds: %s" % ["epoch %s %s(%s)" % (b_[0], b_[1], b_[2]) for b_ in bounds],
+               "rainfall epochs with min(water-level epoch) <= epoch <= max(water-level epoch), both inclusive",
+               key="populate_grid_time|bounds", why="an exclusive bound drops the first or last instant that has a water level")
+        return
     if lower is None or upper is None:
         chk.indeterminate("C10.O1", where_of(gt, gs.call), "bounds of the grid query (epoch against the smallest / largest water-level epoch) not recognised")
         return
@@ -263,7 +271,8 @@ def run(ctx, chk, tier="quick"):
                     for k in c.keywords:
                         bind[k.arg] = k.value
                     a_step, a_grid = bind.get(pt.id), bind.get(pb.value.id)
-                    if isinstance(a_step, ast.Name) and isinstance(a_grid, ast.Name) and role.get(a_step.id) and role.get(a_grid.id):
+                    if isinstance(a_step, ast.Name) and isinstance(a_grid, ast.Name) and sorted(v_ for v_ in role.values() if v_) == ["grid", "step"]:
+                        # plain names, and which names hold the grid / the step is known: anything else is a wrong binding
                         role_ok = role.get(a_step.id) == "step" and role.get(a_grid.id) == "grid"
                 def readable(e):
                     # a parameter of the function, or a constant-indexed element of one
